@@ -240,7 +240,10 @@ func (s *Session) listen() {
 		c, err := s.p.Connect(s.ctx, s.host.String())
 		s.host.Wrap()
 		if e = false; err != nil {
-			if s.state.Closing() {
+			// NOTE: Only give up once the final Shutdown Packet was attempted. If
+			//       Closing was set while we were connecting (Close or a canceled
+			//       context), loop once more so the server gets told.
+			if s.state.Shutdown() {
 				break
 			}
 			if cout.Enabled {
